@@ -1,4 +1,47 @@
-// engine K harnesses for module hook 'report_hybrid_info' (included under cfg(kani) by /repo)
+// engine K — report/hybrid_info.rs (property C10: arbitrary info bytes never crash the parser)
+use super::*;
+
+/// HybridImpressionInfo::from_bytes is total on every slice of length 0..=2 (it only reads byte 0)
+#[kani::proof]
+fn c10_impression_info_total() {
+    let data: [u8; 2] = kani::any();
+    let len: usize = kani::any();
+    kani::assume(len <= 2);
+    kani::cover!(len == 0);
+    kani::cover!(len == 2);
+    let r = HybridImpressionInfo::from_bytes(&data[..len]);
+    match r {
+        Ok(i) => assert!(len >= 1 && i.key_id == data[0]),
+        Err(_) => assert!(len == 0),
+    }
+}
+
+/// HybridConversionInfo::from_bytes returns (never panics) for every byte string of the given concrete length
+/// whose site-domain part is `dlen` bytes: covers no delimiter, delimiter first / last, short and long tails.
+macro_rules! conv_total {
+    ($name:ident, $len:expr) => {
+        #[kani::proof]
+        #[kani::unwind(32)]
+        fn $name() {
+            const LEN: usize = $len;
+            let data: [u8; LEN] = kani::any();
+            kani::cover!(true);
+            let r = HybridConversionInfo::from_bytes(&data[..]);
+            // a record is accepted only if it has a NUL delimiter followed by exactly 1 + 3*8 bytes
+            if let Ok(info) = r {
+                let d = info.conversion_site_domain.len();
+                assert!(d + 1 + 25 == LEN && data[d] == 0 && info.key_id == data[d + 1]);
+            }
+        }
+    };
+}
+conv_total!(c10_conversion_info_total_len0, 0);
+conv_total!(c10_conversion_info_total_len1, 1);
+conv_total!(c10_conversion_info_total_len2, 2);
+conv_total!(c10_conversion_info_total_len25, 25);
+conv_total!(c10_conversion_info_total_len26, 26);
+conv_total!(c10_conversion_info_total_len27, 27);
+conv_total!(c10_conversion_info_total_len28, 28);
 
 #[cfg(test)]
 include!(concat!(env!("IPA_VERIF_DIR"), "/.build/playback/report_hybrid_info.rs"));
